@@ -16,7 +16,7 @@ def run(sid):
     meta = json.load(open(os.path.join(HERE, "seeded", sid, "meta.json")))
     extra = meta.get("also_check", [])
     out = subprocess.run([os.path.join(HERE, "tools", "try_patch.sh"), os.path.join(HERE, "seeded", sid, "patch.diff"), pid] + extra,
-                         capture_output=True, text=True, env=dict(os.environ, LINES_SHOWN="3"))
+                         capture_output=True, text=True, env=dict(os.environ, LINES_SHOWN="3", VERIF_NO_PIN="1"))
     verdicts = dict(re.findall(r"== (C\d+) on \S+: rc=(\d+)", out.stdout))
     first = re.findall(r"clause=(\S+) sig=(\S+)", out.stdout)[:3]
     applies = "PATCH-DOES-NOT-APPLY" not in out.stdout
